@@ -31,10 +31,16 @@ def run(tier):
         balances = {"st4": create_balance("st4", "st4"), "st6": create_balance("st4", "st6")}
         nonrom = rng.random()
         configs = [(16, 0), (24, 0), (24, 5), (36, -170)] if quick else [(16, 0), (16, 11), (24, 0), (24, 5), (36, 0), (36, -170), (36, 5)]
+        configs.append((27, "refined"))
         for ci, (N, start) in enumerate(configs):
             f = f_log if ci % 2 else f_lin         # the same balance objects see different grids of the same shape in turn
             delta = 360 // N if 360 % N == 0 else None
-            dirs = [start + j * (360.0 / N) for j in range(N)]
+            if start == "refined":
+                # non-uniform direction grid: 5 degree bins in one sector, 20 degree bins elsewhere
+                dirs = [float(x) for x in list(range(0, 60, 5)) + list(range(60, 360, 20))]
+                start = 0
+            else:
+                dirs = [start + j * (360.0 / N) for j in range(N)]
             # directions and winds as integers in units of 360/P degrees (P = 360 or 720: half degrees)
             P = 360 if all(abs(x - round(x)) < 1e-12 for x in dirs) else 720
             unit = P / 360.0
@@ -99,6 +105,13 @@ def run(tier):
                 gfree = bal.generation.rate(spec, U, W).values
                 if not np.allclose(imb, gfree + dis - dEdt.variance_density.values, rtol=1e-10, atol=1e-300, equal_nan=True):
                     chk.violation("imbalance:%s" % bname, "imbalance is not generation + dissipation - dE/dt", ctx)
+                # ... and asking again (same objects) gives the same answers
+                imb2 = bal.evaluate_imbalance(U, W, spec, dEdt).values
+                dis2 = bal.dissipation.rate(spec).values
+                gin2 = bal.generation.rate(spec, U, W, roughness_length=z0).values
+                evals += 3 * len(vds)
+                if not (np.array_equal(imb2, imb, equal_nan=True) and np.array_equal(dis2, dis) and np.array_equal(gin2, gin)):
+                    chk.violation("repeatable:%s" % bname, "evaluating the imbalance / dissipation / wind input a second time on the same objects gives different values", ctx)
                 bimb = bal.evaluate_bulk_imbalance(U, W, spec, dEdt).values
                 if not np.allclose(bimb, bal.generation.bulk_rate(spec, U, W).values + dbulk - dEdt.m0().values, rtol=1e-10, atol=1e-18, equal_nan=True):
                     chk.violation("bulk-imbalance:%s" % bname, "bulk imbalance is not bulk generation + bulk dissipation - m0(dE/dt)", ctx)
